@@ -1860,14 +1860,15 @@ theorem commentSeq_eq_nil_of_noComment (l : List Tok) (h : ∀ t ∈ l, t.isComm
 theorem allOwners_not_other : ∀ o ∈ LineStruct.allOwners,
     o ∉ Base.alignOwners ∧ o ∉ Base.indentOwners ∧ o ∉ Base.blankBelowOwners ∧ o ∉ Base.blankAboveOwners ∧
     o ∉ Base.excessAboveOwners ∧ o ∉ Base.excessBelowOwners ∧ o ∉ Base.removeAboveOwners ∧ o ∉ Base.ws200Owners ∧
-    o ∉ Base.betweenPairsOwners ∧ o ∉ Base.wsOwners := by decide +kernel
+    o ∉ Base.betweenPairsOwners ∧ o ∉ Base.wsOwners ∧ o ∉ Base.caseTokenOwners ∧ o ∉ Base.caseFormalOwners ∧
+    o ∉ Base.caseConsistentOwners ∧ o ∉ Base.caseInterfaceOwners := by decide +kernel
 
 /-- the global dispatch hands every owner of this family to `LineStruct.fixByOwner` -/
 theorem fixByOwner_lineStruct (owner : String) (p a : KV) (old : List Tok) (ho : owner ∈ LineStruct.allOwners) :
     Base.fixByOwner owner p a old = LineStruct.fixByOwner Base.lineCls owner p a old := by
-  obtain ⟨h1, h2, h3, h4, h5, h6, h7, h8, h9, h10⟩ := allOwners_not_other owner ho
+  obtain ⟨h1, h2, h3, h4, h5, h6, h7, h8, h9, h10, h11, h12, h13, h14⟩ := allOwners_not_other owner ho
   unfold Base.fixByOwner
-  simp only [h1, h2, h3, h4, h5, h6, h7, h8, h9, h10, ho, if_true, if_false]
+  simp only [h1, h2, h3, h4, h5, h6, h7, h8, h9, h10, h11, h12, h13, h14, ho, if_true, if_false]
 
 theorem dispatch_move (c : Cls) (owner : String) (params action : KV) (old new : List Tok)
     (ho : owner ∈ singleMoveOwners) (h : LineStruct.fixByOwner c owner params action old = some (.ok new)) :
